@@ -41,6 +41,12 @@ def tiled(enc: "seq[ref:Value]", cursor: "int", names: "seq[str]") -> "bool":
             and len(names) == len(enc) and forall(0, len(enc), lambda k: enc[k].name == names[k]))
 
 
+@pure
+def leafy(enc: "seq[ref:Value]", unroll: "bool") -> "bool":
+    """every piece is a scalar leaf (numeric or enum); a whole array is a piece only when arrays are not unrolled"""
+    return forall(0, len(enc), lambda k: leaf_type(enc[k].type) or (not unroll and isinstance(enc[k].type, ArrayType)))
+
+
 # ---- leaf names / widths of one field, of the first k fields of a struct, of the first k unrolled array elements
 def field_names(fcp: "ref:FcpV2", ftype: "ref:Type", fname: "str", prefix: "str", unroll: "bool") -> "seq[str]":
     if isinstance(ftype, StructType):
